@@ -37,8 +37,21 @@ def c06_desc(rng, odd):
         fields = [{"name": "s0", "id": 0, "type": ("u", 8)}]
     if rng.random() < 0.3:
         rng.shuffle(fields)
-    desc["structs"].append({"name": "Msg", "fields": fields})
-    desc["impls"].append({"protocol": "can", "type": "Msg", "name": "Msg", "fields": [("id", rng.randrange(2048)), ("device", "ecu")], "signals": []})
+    # sibling messages on the same and on another device, before and after the one the driver exercises: what is generated for Msg
+    # must not depend on its position among the device's messages
+    mid = rng.choice([0, 1, 2047, rng.randrange(2048)])
+    sib = []
+    for q in range(rng.choice([0, 0, 1, 2, 3])):
+        sf = [{"name": f"o{j}", "id": j, "type": rng.choice([("u", 8), ("u", 16), ("i", 32), ("enum", "Mode"), ("f32",)])} for j in range(rng.randint(1, 3))]
+        sib.append(({"name": f"Oth{q}", "fields": sf},
+                    {"protocol": "can", "type": f"Oth{q}", "name": f"Oth{q}", "signals": [],
+                     "fields": [("id", (mid + 1 + q) % 2048), ("device", rng.choice(["ecu", "ecu", "dash"]))] + ([("period", rng.choice([10, 100]))] if rng.random() < 0.3 else [])}))
+    cut = rng.randint(0, len(sib))
+    main = ({"name": "Msg", "fields": fields},
+            {"protocol": "can", "type": "Msg", "name": "Msg", "fields": [("id", mid), ("device", "ecu")], "signals": []})
+    for st, im in sib[:cut] + [main] + sib[cut:]:
+        desc["structs"].append(st)
+        desc["impls"].append(im)
     return desc
 
 
@@ -71,7 +84,7 @@ def build_one(args):
     from fcp_can_c import Generator
     from fcp.encoding import make_encoder, PackedEncoderContext
     fcp = serde_run.parse(text).unwrap()
-    im = next(fcp.get_matching_impls("can"))
+    im = next(i for i in fcp.get_matching_impls("can") if i.name == "Msg")
     pieces = make_encoder("packed", fcp, PackedEncoderContext().with_unroll_arrays(True)).generate(im)
     os.makedirs(outdir, exist_ok=True)
     try:
@@ -103,7 +116,7 @@ def gen_member(rng, p):
         n = p.type.get_length()
         return rng.choice([-(1 << (n - 1)), -1, 0, 1, (1 << (n - 1)) - 1, rng.randint(-(1 << (n - 1)), (1 << (n - 1)) - 1)])
     if type(p.type) is T.EnumType:
-        return rng.choice([0, 1])
+        return rng.choice([0, 1, 1, 0, 2])          # 2 is a value of Mode only for some schemas; any 8-bit pattern must survive the frame
     n = p.type.get_length()
     return rng.choice([0, 1, (1 << n) - 1, rng.randrange(1 << n)])
 
@@ -121,7 +134,7 @@ def run(chk):
     nsch, nval = (48, 30) if quick else (1200, 80)
     broken = chk.proof_obligations(["Corr/CanC.vo"])
     chk.coverage["rule"] = (
-        "one flat CAN message per schema: 1-8 signals in any order of types (8/16/32/64-bit integers, f32, f64, an enum; in a third of the schemas "
+        "one flat CAN message per schema (with up to three sibling messages on the same or another device before and after it, frame ids incl. 0 and 2047): 1-8 signals in any order of types (8/16/32/64-bit integers, f32, f64, an enum; in a third of the schemas "
         "also widths outside 8/16/32/64), offsets up to 64 bits; the real generator's C is compiled with gcc -O1 -fno-strict-aliasing against a "
         "generated driver that fills the message struct, calls can_encode_msg and can_decode_msg; frame (id, dlc, data) and decoded members are "
         "compared in Coq with the model; non-trivial = >= 2 signals; distinct = (schema, values)")
@@ -164,6 +177,12 @@ def run(chk):
             for vals, line in zip(allvals, outs):
                 nums = [int(x) for x in line.split()]
                 fid, dlc, word, dec = nums[0], nums[1], nums[2], nums[3:]
+                # the decode path computes 1.0 * x + 0.0, which turns -0.0 into +0.0: the same value (IEEE equality), another bit
+                # pattern. Decoded zeros are compared as values, i.e. given the sign of the zero that was sent.
+                for q, (p, v) in enumerate(zip(pieces, vals)):
+                    zeros = (0, 1 << 31) if type(p.type) is T.FloatType else ((0, 1 << 63) if type(p.type) is T.DoubleType else ())
+                    if q < len(dec) and v in zeros and dec[q] in zeros:
+                        dec[q] = v
                 cases.append(cpair(sterm, iterm, clist(cz(v) for v in vals), f"(ORun {cz(fid)} {cz(dlc)} {cz(word)} {clist(cz(v) for v in dec)})"))
                 meta.append((text, vals))
                 chk.count((text, tuple(vals)), nontrivial=len(pieces) >= 2, sample={"schema": text, "values": vals, "frame": [fid, dlc, word], "decoded": dec})
